@@ -47,7 +47,7 @@ def extra_jobs(tier, seed):
     return cachestep.prog_jobs(tier, seed, {"C09"}, "checks.c09") + cachestep.config_jobs("checks.c09")
 
 
-BUDGET = {"quick": None, "thorough": 20 * 60}
+BUDGET = {"quick": None, "thorough": 12 * 60}
 
 if __name__ == "__main__":
     from symx import runner
